@@ -247,6 +247,14 @@ func cpuLimitMicros(inLen int) int64 {
 	return base
 }
 
+// cpuLimit is the CPU bound of one run of a target: calls x (10 s for inputs up to 64 KiB, scaled linearly above).
+func (t *target) cpuLimit(inLen int) int64 {
+	if t.calls > 1 {
+		return int64(t.calls) * cpuLimitMicros(inLen)
+	}
+	return cpuLimitMicros(inLen)
+}
+
 // allocLimit is the allocation bound of one run of a target: calls x (64 MiB + perByte x len(input)).
 // calls = number of decoder invocations the target's run function makes per input (default 1),
 // perByte = 2000 unless the target documents a larger linear cost (SQL grammar targets: 8000, see notes).
@@ -391,7 +399,7 @@ func Child(args []string) int {
 		line = append(line, '\n')
 		jf.Write(line)
 		atomic.StoreInt64(&curIdx, int64(i))
-		atomic.StoreInt64(&curLimit, cpuLimitMicros(len(ins[i].data)))
+		atomic.StoreInt64(&curLimit, t.cpuLimit(len(ins[i].data)))
 		st := cpuMicros()
 		if st == 0 {
 			st = 1
